@@ -54,7 +54,7 @@ def _cmp(got, exp):
 
 def sami_sync_2(a0: int, b0: int, a1: int, b1: int) -> str:
     """
-    pre: 0 <= a0 <= b0 <= a1 <= b1 < 86400000000
+    pre: 0 <= a0 <= b0 < 86400000000 and a0 <= a1 <= b1 < 86400000000
     post: _ == ""
     """
     t = [a0, b0, a1, b1]
@@ -63,7 +63,7 @@ def sami_sync_2(a0: int, b0: int, a1: int, b1: int) -> str:
 
 def sami_sync_3(a0: int, b0: int, a1: int, b1: int, a2: int, b2: int) -> str:
     """
-    pre: 0 <= a0 <= b0 <= a1 <= b1 <= a2 <= b2 < 86400000000
+    pre: 0 <= a0 <= b0 < 86400000000 and a0 <= a1 <= b1 < 86400000000 and a1 <= a2 <= b2 < 86400000000
     post: _ == ""
     """
     t = [a0, b0, a1, b1, a2, b2]
